@@ -284,12 +284,23 @@ def op_pred(ctx, dendropy, pending):
     pending.append((line, case, got + (" %d" % nested if nested is not None else " ?")))
 
 
-def run_encode(tree, sup, col):
-    tree.encode_bipartitions(suppress_unifurcations=sup, collapse_unrooted_basal_bifurcation=col)
+def run_encode(tree, sup, col, variant=0):
+    """variant: 0 encode_bipartitions, 1 update_bipartitions (alias), 2 mutable bipartitions, 3 suppress_storage"""
+    if variant == 1:
+        tree.update_bipartitions(suppress_unifurcations=sup, collapse_unrooted_basal_bifurcation=col)
+    elif variant == 2:
+        tree.encode_bipartitions(suppress_unifurcations=sup, collapse_unrooted_basal_bifurcation=col, is_bipartitions_mutable=True)
+    elif variant == 3:
+        tree.encode_bipartitions(suppress_unifurcations=sup, collapse_unrooted_basal_bifurcation=col, suppress_storage=True)
+        if tree.bipartition_encoding is not None:
+            raise AssertionError("suppress_storage=True left a bipartition_encoding list")
+        return sorted((nd.edge.bipartition.leafset_bitmask, nd.edge.bipartition.split_bitmask) for nd in tu.walk(tree.seed_node))
+    else:
+        tree.encode_bipartitions(suppress_unifurcations=sup, collapse_unrooted_basal_bifurcation=col)
     return sorted((b.leafset_bitmask, b.split_bitmask) for b in tree.bipartition_encoding)
 
 
-def check_encoding_exact(ctx, tree, case):
+def check_encoding_exact(ctx, tree, case, stored=True, maps=True):
     """clauses (a),(b) on the real objects after encoding, by a from-scratch walk"""
     masks = tu.leafset_masks(tree)
     L = masks[id(tree.seed_node)]
@@ -319,10 +330,12 @@ def check_encoding_exact(ctx, tree, case):
                 b.split_bitmask, want, L, tree.is_rooted, ws), case)
             return
         seen.append(id(b))
+    if not stored:
+        return
     enc = tree.bipartition_encoding
     if sorted(id(b) for b in enc) != sorted(id(nd.edge.bipartition) for nd in tu.walk(tree.seed_node)):
         ctx.fail("encoding", "bipartition_encoding is not exactly one bipartition per retained edge", case)
-    if L:
+    if L and maps:      # mutable bipartitions are unhashable by design, so the edge maps are not available for them
         sbm = tree.split_bitmask_edge_map
         for nd in tu.walk(tree.seed_node):
             if nd.edge.split_bitmask not in sbm:
@@ -330,21 +343,25 @@ def check_encoding_exact(ctx, tree, case):
                 break
 
 
-def op_encode(ctx, dendropy, pending, tree=None, flags=None):
+def op_encode(ctx, dendropy, pending, tree=None, flags=None, variant=None):
     rng = ctx.rng
     tree = tree or gen_tree(dendropy, rng, ctx.pick(12, 40) if rng.random() < 0.9 else 3)
     sup, col = flags or (rng.random() < 0.8, rng.random() < 0.8)
     toks, ids = tu.encode_tree(tree, with_labels=False)
     case = {"op": "encode", "tree": toks, "rooted": ROOT[tree.is_rooted], "sup": sup, "col": col,
             "ns": namespace_desc(tree.taxon_namespace)}
+    if variant is not None:
+        case["variant"] = variant
     if tu.leafset_masks(tree)[id(tree.seed_node)] == 0:
         return  # no taxon at all: the library leaves split masks undefined
     nt = nontrivial_tree(tree)
-    pairs = run_encode(tree, sup, col)
+    variant = case.get("variant", rng.choice([0, 0, 0, 1, 2, 3]))
+    case["variant"] = variant
+    pairs = run_encode(tree, sup, col, variant)
     probs = tu.arborescence_problems(tree)
     if probs:
         ctx.fail("encoding", "tree malformed after encode_bipartitions: %s" % probs, case)
-    check_encoding_exact(ctx, tree, case)
+    check_encoding_exact(ctx, tree, case, stored=(variant != 3), maps=(variant != 2))
     got = " ".join("%d:%d" % p for p in pairs) + " | " + tu.render_tree(tree, ids)
     ctx.case(["encode", toks, case["rooted"], sup, col], nt, sample=case, kind="encode")
     pending.append(("encode %s %d %d %s" % (case["rooted"], sup, col, " ".join(toks)), case, got))
@@ -572,6 +589,12 @@ def op_tree_preds(ctx, dendropy, pending):
     for b2 in e2[:10]:
         want = all(compatible(side(b1), side(b2)) for b1 in e1)
         got = bool(t1.is_compatible_with_bipartition(b2))
+        if rng.random() < 0.3:
+            t1.encode_bipartitions()
+            got_u = bool(t1.is_compatible_with_bipartition(b2, is_bipartitions_updated=True))
+            if got_u != want:
+                ctx.fail("predicate", "Tree.is_compatible_with_bipartition(is_bipartitions_updated=True) on a current encoding = %s, set definition says %s" % (got_u, want), case)
+                return
         if got != want:
             ctx.fail("predicate", "Tree.is_compatible_with_bipartition = %s, set definition over all edges says %s (leafset %s)" % (
                 got, want, sorted(side(b2))), case)
@@ -691,7 +714,7 @@ def replay(ctx, rec):
             ctx.fail("exception", "%s raised %s: %s" % (op, type(e).__name__, str(e)[:200]), c)
     elif op == "encode":
         tree, _ = tree_for_case(dendropy, c)
-        op_encode(ctx, dendropy, pending, tree=tree, flags=(c["sup"], c["col"]))
+        op_encode(ctx, dendropy, pending, tree=tree, flags=(c["sup"], c["col"]), variant=c.get("variant", 0))
     elif op == "pred":
         a, b, fill = c["a"], c["b"], c["fill"]
         A, B, F = bits_of(a), bits_of(b), bits_of(fill)
